@@ -118,32 +118,27 @@ def obligations(tier, seed):
            outside="subpage windows wider than 3 (clock pages 0x0000..0x2359: the walk then probes every number in between, 9000 look-ups per page); hash and priority lists "
                    "behind _vbi_cache_get_page (C10); symbolic presence masks (page number becomes a symbolic pointer into the 0x800 entry table: measured, see report)",
            reach=["end", "stopped", "full_cycle"], timeout=900, mem_gb=4, vin_size=32),
-        Ob("haystack_rows", func="h_c17_haystack",
-           desc="haystack construction of search_page_fwd on the full 25 x 41 page, size attributes of the 4 special cells per row fixed by the grid, their characters "
-                "symbolic: the text handed to the matcher is rows 1..23 (not 0, not 24), 40 columns each, left to right, one character per NORMAL / DOUBLE_HEIGHT / "
-                "DOUBLE_WIDTH / DOUBLE_SIZE cell, nothing for continuation cells, one separator per row; length == sum of the row lengths <= buffer; matcher run once from offset 0",
-           encodes=["search_page_fwd", "vbi_search_next", "vbi_search_new"], defines={"NP": 1, "HC": 2, "OCC": 0}, patch=PATCH,
-           grid=[dict(SIZES=z) for z in (0, 1400, 3400, 2006, 14, 6060)], quick_grid=[dict(SIZES=0), dict(SIZES=1400)],
-           unwind=42, unwindset=dict(us, **{"search_page_fwd.1": 25, "search_page_fwd.0": 42, "h_c17_haystack.0": 3}),
-           flags=["--max-field-sensitivity-array-size", "4"],
-           bounds="rows 1 and 2: cells at columns 0, 1, 39, 40 carry grid-fixed size attributes (SIZES digits) and symbolic characters / attributes; all other cells blank NORMAL_SIZE",
-           outside="symbolic size attributes (write position in the haystack symbolic: no verdict, see below); search_page_rev's copy of the loop; continuation inside a page",
-           reach=["end"], timeout=600, mem_gb=4, vin_size=96, **common),
+        # haystack_rows (h_c17_haystack with the size attributes of the special cells FIXED by the grid, -DSIZES=..., characters symbolic) was tried again during the seed
+        # evaluation (it would catch seeded/C17-search-fwd-row-24: length handed to the matcher 24 x 41 instead of 23 x 41) and dropped again, measured: full page, fs 4 or
+        # --no-array-field-sensitivity: symex 6-7 cells/s and falling, no verdict in 600 s; 2-row slice (-DLAST_ROW=3): symex 9 s, then 24.7 GB in the SSA -> SAT conversion
+        # after 280 s.  The 12 KB search object (page text 1056 cells + haystack 1026 characters) is one constant after calloc; every store makes a new 1 K element array constant.
         Ob("highlight_positions", func="h_c17_highlight",
            desc="continuation positions left by highlight() for a match [ms, me) at ANY place of a page of NORMAL_SIZE cells: (row[0], col[0]) = first cell at or behind the end "
                 "of the match (LAST_ROW+1 / 0 when it ends with the page) - where search_page_fwd resumes; (row[1], col[1]) = the cell the match starts in - where "
                 "search_page_rev stops, so that an occurrence is returned once; page number remembered; all cell accesses inside the page",
-           encodes=["highlight"], defines={"NP": 1, "KNOWN_C17_HIGHLIGHT_ROW1": None}, patch=PATCH, unwind=42, unwindset=dict(us, **{"highlight.0": 42, "highlight.1": 25}),
+           encodes=["highlight"], defines={"NP": 1, "KNOWN_C17_HIGHLIGHT_ROW1": None, "LAST_ROW": 4}, patch=PATCH_ROWS, unwind=42, unwindset=dict(us, **{"highlight.0": 42, "highlight.1": 5}),
            flags=["--max-field-sensitivity-array-size", "4"],
            assumes=["match does not begin on a row separator", "KNOWN_C17_HIGHLIGHT_ROW1: ms > 0 (candidate defect, obligation highlight_first_cell)"],
-           bounds="ms < me <= 943 symbolic; all cells NORMAL_SIZE (offset of a cell concrete)", outside="pages with double width / size cells (offset of a cell symbolic)",
+           bounds="page slice of text rows 1..3 (search.c compiled with -DLAST_ROW=4, the row bound of the same loops: with all 23 rows the 920 cell iterations, each with a "
+                  "symbolic early return and guarded colour stores, gave no verdict in 900 s / 700 MB); ms < me <= 123 symbolic; all cells NORMAL_SIZE (offset of a cell concrete)",
+           outside="pages with double width / size cells (offset of a cell symbolic); rows 4..23 (same loop body)",
            reach=["end", "match_ends_with_page"], timeout=900, mem_gb=6, vin_size=32, **common),
     ] + ([
         # CANDIDATES (only with VERIF_CANDIDATES=1): refute the unchanged tree (TODO-defect-candidates.md items 8, 9)
         Ob("highlight_first_cell", func="h_c17_highlight",
            desc="highlight_positions without the assumption ms > 0: a match beginning in row 1 column 0 leaves row[1]/col[1] stale (they are written only for cells in front "
                 "of the match), the next backward call finds the same occurrence again - NOT_FOUND never comes",
-           encodes=["highlight"], defines={"NP": 1}, patch=PATCH, unwind=42, unwindset=dict(us, **{"highlight.0": 42, "highlight.1": 25}),
+           encodes=["highlight"], defines={"NP": 1, "LAST_ROW": 4}, patch=PATCH_ROWS, unwind=42, unwindset=dict(us, **{"highlight.0": 42, "highlight.1": 5}),
            flags=["--max-field-sensitivity-array-size", "4"], bounds="as highlight_positions", reach=["end", "match_in_first_cell"], timeout=900, mem_gb=6, vin_size=32, **common),
         Ob("foreach_real_start_outside_window", harness="h_c17_foreach.c", func="h_c17_foreach",
            desc="foreach_real with the start subpage OUTSIDE the subpage range of a start page that has cached subpages ahead: forward from subpage 0 of a page caching subpages "
